@@ -9,7 +9,11 @@ MINLEN = {0: 0, U8: 1, I8: 1, BOOL: 1, U16: 2, I16: 2, U32: 4, I32: 4, F32: 4, D
           DTMS: 8, DTUS: 8, DTNS: 8, MAC: 6, IP4: 4, IP6: 16, OCTETS: 0, STRING: 0}
 
 TEST_EXT = {(9, 1): (1, STRING), (9, 2): (2, U32), (9, 3): (3, BOOL), (9, 4): (4, OCTETS), (29305, 0): (0, U16),
-            (29305, 7): (7, F64), (4294967295, 32767): (32767, IP6)}
+            (29305, 7): (7, F64), (4294967295, 32767): (32767, IP6),
+            # the built-in table has no element of a signed or float32 type: without these Interpret's int8..int64 / float32 cases never run
+            (9, 5): (5, I8), (9, 6): (6, I16), (9, 7): (7, I32), (9, 8): (8, I64), (9, 9): (9, F32),
+            # the same under enterprise 0 (NetFlow v9 has no enterprise numbers)
+            (0, 30001): (30001, I8), (0, 30002): (30002, I16), (0, 30003): (30003, I32), (0, 30004): (30004, I64), (0, 30005): (30005, F32)}
 
 
 def load_model(dump):
